@@ -400,7 +400,10 @@ def evaluate(mod, exe, cases, model_ok):
                 except Exception as ex:
                     r['model'] = {'undecodable': str(ex)[:100], 'raw': o[:20]}
                 cmp_impl = mod.project(r['impl'], r['case']) if hasattr(mod, 'project') else r['impl']
-                r['agree'] = canon(cmp_impl) == canon(r['model'])
+                if hasattr(mod, 'same'):
+                    r['agree'] = bool(mod.same(cmp_impl, r['model'], r['case']))
+                else:
+                    r['agree'] = canon(cmp_impl) == canon(r['model'])
     for r in recs:
         try:
             r['fail'] = mod.oracle(r['case'], r['impl'])
@@ -471,7 +474,7 @@ def main():
         if audit:
             cb['errors'].append('audit: forbidden declarations: %s' % audit[:5])
         if cb['model_ok']:
-            exe0, msg = build_drivers.build(pid)
+            exe0, msg = build_drivers.build(pid, getattr(mod, 'COQ_CORR', None))
             if exe0 is None:
                 cb['model_ok'] = False
                 cb['errors'].append('driver: ' + msg)
